@@ -143,6 +143,11 @@ CHECKS = {
         ],
         "assumptions": ["checks run as root: permission *enforcement* is not observable, only the resulting mode bits"],
     },
+    "C17": {
+        "level": "fault_enumeration",
+        "units": [unit("c17-keyproof", "keyproof", ["zz_verif_c17_test.go"], "^TestVerifC17", shards={"quick": 8, "thorough": 8})],
+        "assumptions": ["statistical soundness (2^-80) of the iterated proofs is not decidable by enumeration; what is decided: every iteration is really checked, the relation checked equals an independently written one on toy moduli, every leaf of every component is bound to the challenge"],
+    },
     "_FIX": {
         "level": "other",
         "units": [unit("genfix", "root", [], "^TestVerifGenFixtures$", env={"VERIF_GENFIX": "1"}, timeout=1800)],
